@@ -1042,6 +1042,10 @@ func (e *Env) call(n *ECall) TV {
 		if v.Sort == sIface {
 			return TV{S: "(if-data " + v.S + ")", Sort: sInt}
 		}
+		if v.Sort == sSlice {
+			// the backing array of a slice
+			return TV{S: "(sl-arr " + v.S + ")", Sort: sInt}
+		}
 		return TV{S: v.S, Sort: sInt}
 	case "emb":
 		// emb(p, Field): address of an embedded struct field
